@@ -7,7 +7,6 @@ import (
 	"go/token"
 	"go/types"
 	"sort"
-	"strings"
 
 	"golang.org/x/tools/go/packages"
 )
@@ -43,7 +42,7 @@ func init() {
 			"guards that only differ in how they compare (e.g. TERMINATED BY '' handling)",
 		Run: func(c *Ctx) {
 			runC50(c, real, 6)
-			runC50Opts(c, real, c50Floors{o1: 6, o2: 6, o3: 5, o4: 2, o5: 15, o6: 4})
+			runC50Opts(c, real, c50Floors{o1: 6, o2: 5, o3: 4, o4: 2, o5: 9, o6: 4})
 		},
 		Fixture: func(c *Ctx, fx2 *Prog) {
 			expectFixture(c, fx2, "c50: different default, different override source, option ignored by one executor, unescaped delimiter must be reported",
@@ -198,130 +197,12 @@ func runC50(c *Ctx, nm c50Names, nOpts int) {
 		}
 	}
 
-	// ---- D2: planbuilder override sources ---------------------------------------------------------------
-	isASTRoot := func(info *types.Info, id *ast.Ident) bool {
-		o := info.Uses[id]
-		if o == nil {
-			return false
-		}
-		nt := named(o.Type())
-		return nt != nil && nt.Obj().Pkg() != nil && strings.HasSuffix(nt.Obj().Pkg().Path(), nm.astPkgSuffix)
-	}
-	pathsOf := func(info *types.Info, e ast.Node, into map[string]bool) {
-		ast.Inspect(e, func(n ast.Node) bool {
-			sel, ok := n.(*ast.SelectorExpr)
-			if !ok {
-				return true
-			}
-			var parts []string
-			x := ast.Expr(sel)
-			for {
-				s, ok := ast.Unparen(x).(*ast.SelectorExpr)
-				if !ok {
-					break
-				}
-				if selInfo := info.Selections[s]; selInfo == nil || selInfo.Kind() != types.FieldVal {
-					return true
-				}
-				parts = append([]string{s.Sel.Name}, parts...)
-				x = s.X
-			}
-			if id, ok := ast.Unparen(x).(*ast.Ident); ok && isASTRoot(info, id) {
-				for i := 1; i <= len(parts); i++ {
-					into[strings.Join(parts[:i], ".")] = true
-				}
-				return false
-			}
-			return true
-		})
-	}
-	src := map[string]map[string]map[string]bool{nm.intoType: {}, nm.loadType: {}}
-	srcPos := map[string]token.Pos{}
-	binfo := bp.TypesInfo
-	for _, file := range bp.Syntax {
-		var stack []ast.Node
-		ast.Inspect(file, func(n ast.Node) bool {
-			if n == nil {
-				stack = stack[:len(stack)-1]
-				return true
-			}
-			stack = append(stack, n)
-			as, ok := n.(*ast.AssignStmt)
-			if !ok {
-				return true
-			}
-			for i, l := range as.Lhs {
-				sel, ok := ast.Unparen(l).(*ast.SelectorExpr)
-				if !ok || !isOpt[sel.Sel.Name] {
-					continue
-				}
-				nt := named(binfo.TypeOf(sel.X))
-				side := ""
-				if nt == intoT {
-					side = nm.intoType
-				} else if nt == loadT {
-					side = nm.loadType
-				}
-				if side == "" {
-					continue
-				}
-				set := src[side][sel.Sel.Name]
-				if set == nil {
-					set = map[string]bool{}
-					src[side][sel.Sel.Name] = set
-				}
-				if _, seen := srcPos[side+"."+sel.Sel.Name]; !seen {
-					srcPos[side+"."+sel.Sel.Name] = as.Pos()
-				}
-				if len(as.Rhs) == len(as.Lhs) {
-					pathsOf(binfo, as.Rhs[i], set)
-				}
-				for _, anc := range stack {
-					if ifs, ok := anc.(*ast.IfStmt); ok && ifs.Body.Pos() <= as.Pos() && as.End() <= ifs.Body.End() {
-						g := map[string]bool{}
-						pathsOf(binfo, ifs.Cond, g)
-						for p := range g {
-							set["guard:"+p] = true
-						}
-					}
-				}
-			}
-			return true
-		})
-	}
-	// only paths through the option clauses count: a guard on another attribute of the statement (which form of INTO,
-	// LOCAL, ...) is not an option source. Option clauses = first components of the paths assigned as values.
-	clauseRoots := map[string]bool{}
-	for _, side := range src {
-		for _, set := range side {
-			for p := range set {
-				if !strings.HasPrefix(p, "guard:") {
-					clauseRoots[strings.SplitN(p, ".", 2)[0]] = true
-				}
-			}
-		}
-	}
-	render := func(m map[string]bool) string {
-		var ks []string
-		for k := range m {
-			k = strings.TrimPrefix(k, "guard:")
-			if clauseRoots[strings.SplitN(k, ".", 2)[0]] {
-				ks = append(ks, k)
-			}
-		}
-		sort.Strings(ks)
-		ks = compactStrings(ks)
-		sort.Strings(ks)
-		return "{" + strings.Join(ks, ", ") + "}"
-	}
-	for _, f := range opts {
-		a, b := src[nm.intoType][f], src[nm.loadType][f]
-		pos := srcPos[nm.intoType+"."+f]
-		if !pos.IsValid() {
-			pos = srcPos[nm.loadType+"."+f]
-		}
-		c.Check(render(a) == render(b), "C50-D2", f, pos, render(a),
-			fmt.Sprintf("option %s is overridden from %s for %s but from %s for %s: the same FIELDS/LINES clause configures the writer and the reader differently", f, render(a), nm.intoType, render(b), nm.loadType))
+	// ---- D2: planbuilder override sources (c50_opts.go: shares the canonical guards of C50-O1, so local aliases of statement
+	// parts and rewritten conditions do not matter) ---------------------------------------------------------------------
+	if om := c50newModel(c, nm); om != nil {
+		om.ruleD2()
+	} else {
+		c.Undecided("C50-D2", "model", 0, "plan node types, constructors or shared options not found")
 	}
 
 	// ---- D3: both executors read every option -------------------------------------------------------------
@@ -425,6 +306,26 @@ func runC50(c *Ctx, nm c50Names, nOpts int) {
 		c.Undecided("C50-E1", "writer", 0, "no function of "+nm.execRel+" reads the options of "+nm.intoType)
 		return
 	}
+	// single-assignment locals of the writer stand for their definition (esc := n.FieldsEscapedBy)
+	var wsubst map[types.Object]ast.Expr
+	if om := c50newModel(c, nm); om != nil {
+		wsubst = om.fn(ep, DeclName(writer), writer.Body).cx.subst
+	}
+	resolve := func(e ast.Expr) ast.Expr {
+		e = ast.Unparen(e)
+		for i := 0; i < 8; i++ {
+			id, ok := e.(*ast.Ident)
+			if !ok {
+				break
+			}
+			d := wsubst[einfo.Uses[id]]
+			if d == nil {
+				break
+			}
+			e = ast.Unparen(d)
+		}
+		return e
+	}
 	escaped := map[string]token.Pos{}
 	ast.Inspect(writer.Body, func(m ast.Node) bool {
 		call, ok := m.(*ast.CallExpr)
@@ -435,18 +336,27 @@ func runC50(c *Ctx, nm c50Names, nOpts int) {
 		if fn == nil || fn.Pkg() == nil || fn.Pkg().Path() != "strings" || (fn.Name() != "Replace" && fn.Name() != "ReplaceAll") || len(call.Args) < 3 {
 			return true
 		}
-		old, ok := ast.Unparen(call.Args[1]).(*ast.SelectorExpr)
+		old, ok := resolve(call.Args[1]).(*ast.SelectorExpr)
 		if !ok || named(einfo.TypeOf(old.X)) != intoT {
 			return true
 		}
 		// the replacement must start from the escape option
 		usesEsc := false
-		ast.Inspect(call.Args[2], func(x ast.Node) bool {
-			if s, ok := x.(*ast.SelectorExpr); ok && s.Sel.Name == nm.escapeField && named(einfo.TypeOf(s.X)) == intoT {
-				usesEsc = true
-			}
-			return true
-		})
+		var walk func(e ast.Node, depth int)
+		walk = func(e ast.Node, depth int) {
+			ast.Inspect(e, func(x ast.Node) bool {
+				if s, ok := x.(*ast.SelectorExpr); ok && s.Sel.Name == nm.escapeField && named(einfo.TypeOf(s.X)) == intoT {
+					usesEsc = true
+				}
+				if id, ok := x.(*ast.Ident); ok && depth < 8 {
+					if d := resolve(id); d != ast.Expr(id) {
+						walk(d, depth+1)
+					}
+				}
+				return true
+			})
+		}
+		walk(call.Args[2], 0)
 		if usesEsc {
 			escaped[old.Sel.Name] = call.Pos()
 		}
